@@ -480,6 +480,10 @@ class Envelope:
                 operators, *states, destructive=destructive
             )
 
+        # Both spaces are measured: they have to share the product space first
+        if len(states) == 2 and self.state is None:
+            self.combine()
+
         # Expand to matrix state if not alreay in it
         assert isinstance(self.expansion_level, ExpansionLevel)
         while self.expansion_level < ExpansionLevel.Matrix:
@@ -487,9 +491,6 @@ class Envelope:
 
         self.reorder(*states)
         C = Config()
-
-        if len(states) == 2 and self.state is None:
-            self.combine()
 
         reshape_shape = [-1, -1]
         assert isinstance(self.fock.index, int) and isinstance(
@@ -509,19 +510,13 @@ class Envelope:
             for op in operators:
                 assert op.shape == (self.dimensions, self.dimensions)
 
-            # Produce einsum str
-            einsum = "eacf,abcd,gbhd->egfh"
-            # Compute probabilities
+            # The state is ordered like the operators (reorder above), so the
+            # operators act on the whole density matrix
+            assert isinstance(self.state, jnp.ndarray)
+            rho = self.state
             probabilities = []
             for op in operators:
-                op = op.reshape([*reshape_shape, *reshape_shape]).transpose(
-                    [0, 2, 1, 3]
-                )
-                prob_state = (
-                    jnp.einsum(einsum, op, ps, jnp.conj(op))
-                    .transpose([0, 2, 1, 3])
-                    .reshape(self.dimensions, self.dimensions)
-                )
+                prob_state = jnp.matmul(op, jnp.matmul(rho, jnp.conj(op.T)))
                 probabilities.append(jnp.trace(prob_state).real)
 
             probs = jnp.array(probabilities) / jnp.sum(jnp.array(probabilities))
@@ -532,16 +527,8 @@ class Envelope:
             )
 
             # Constructing post measurement state
-            op = (
-                operators[choice]
-                .reshape([*reshape_shape, *reshape_shape])
-                .transpose([0, 2, 1, 3])
-            )
-            self.state = (
-                jnp.einsum(einsum, op, ps, np.conj(op))
-                .transpose([0, 2, 1, 3])
-                .reshape((self.dimensions, self.dimensions))
-            )
+            op = operators[choice]
+            self.state = jnp.matmul(op, jnp.matmul(rho, jnp.conj(op.T)))
             self.state = self.state / jnp.trace(self.state)
             if destructive:
                 self._set_measured()
@@ -575,21 +562,11 @@ class Envelope:
             self.state = self.state / jnp.trace(self.state)
 
             if destructive:
-                other_state = (
-                    self.fock if states[0] is self.polarization else self.polarization
-                )
-                ps = self.state.reshape([*reshape_shape, *reshape_shape]).transpose(
-                    [0, 2, 1, 3]
-                )
-                assert isinstance(other_state, Fock) or isinstance(
-                    other_state, Polarization
-                )
-                other_state.state = jnp.einsum("aabc->bc", ps)
-                other_state.index = None
-                other_state.expansion_level = ExpansionLevel.Matrix
-                other_state.contract()
-                states[0]._set_measured()
-                self._set_measured()
+                # A destructive measurement consumes the envelope: the other part is
+                # measured as well, like on the uncombined and the composite routes
+                other_outcomes = self.measure(destructive=True)
+                del other_outcomes[states[0]]
+                return (choice, other_outcomes)
             return (choice, {})
         # Should not come to this
         return (-1, {})  # pragma: no cover
